@@ -14,7 +14,9 @@ CONSTANTS PS,          \* index of the parameter set (ParamSets below)
           MaxNow,      \* the clock stops there
           IPSets,      \* IP assignments a peer can have (set of sets of IPs)
           AppVals,     \* values the application score can take
-          Rich         \* TRUE: the whole alphabet; FALSE: core alphabet (no GC/IPs/param update)
+          Rich,        \* TRUE: the whole alphabet; FALSE: core alphabet (no GC/IPs/param update)
+          Sim,         \* TRUE when run with -simulate: rare events are offered several times (weights)
+          Warm         \* index of the forced prefix (0 = none) after which the free exploration starts
 
 VARIABLES hist,      \* the events so far
           rmesh,     \* the router's view: {<<p, t>>} grafted
@@ -54,6 +56,12 @@ ParamSets == <<
 
 P0 == ParamSets[PS]
 
+\* values for the constants IPSets / AppVals (a configuration file cannot spell them)
+NoIPs    == {{}}
+SomeIPs  == {{}, {"10.0.0.1"}, {"10.0.1.1"}, {"10.0.0.1", "10.0.1.1"}}
+App2     == {0, -1}
+App3     == {-1, 0, 2}
+
 \* alternatives offered to SetTopicParams
 Alt(t) == CASE PS = 1 /\ t = "t1" -> {TPaLow}
             [] PS = 2 /\ t = "t2" -> {TPa}
@@ -67,6 +75,26 @@ IdTopic(i) == IF i = "m1" THEN "t1" ELSE IF i = "m2" /\ "t2" \in Topics THEN "t2
               ELSE IF i = "m3" THEN "t1" ELSE IF "t2" \in Topics THEN "t2" ELSE "t1"
 
 Init == /\ SInit(P0) /\ hist = <<>> /\ rmesh = {} /\ nref = 0 /\ nset = 0
+
+\* forced prefixes: bring the scorer into an interesting region, explore exhaustively from there
+E1(k, p) == [e |-> k, p |-> p]
+E2(k, p, t) == [e |-> k, p |-> p, t |-> t]
+Con(p) == [e |-> "connect", p |-> p, ips |-> <<>>]
+Tk(n) == [e |-> "tick", dt |-> n]
+Rf == [e |-> "refresh"]
+Msg(k, i, p) == [e |-> k, id |-> i, p |-> p, t |-> IdTopic(i)]
+WarmUps == <<
+    \* 1: both peers grafted and past activation with a delivery deficit
+    <<Con("p1"), Con("p2"), E2("graft", "p1", "t1"), E2("graft", "p2", "t1"), Tk(2), Rf>>,
+    \* 2: p1 at the first-delivery cap, p2 near-first, a validated message inside its window
+    <<Con("p1"), Con("p2"), E2("graft", "p1", "t1"), E2("graft", "p2", "t1"),
+      Msg("deliver", "m2", "p1"), Msg("deliver", "m3", "p1"), [e |-> "validate", id |-> "m1", t |-> "t1"],
+      Msg("duplicate", "m1", "p2"), Msg("deliver", "m1", "p1"), Tk(1)>>,
+    \* 3: p1 retained with a negative score, p2 connected
+    <<Con("p1"), Con("p2"), E2("graft", "p1", "t1"), Msg("reject", "m1", "p1") @@ [reason |-> "validation failed"],
+      Tk(2), Rf, E1("disconnect", "p1"), Tk(1)>>
+>>
+WarmUp == IF Warm = 0 THEN <<>> ELSE WarmUps[Warm]
 
 Rec(e) == hist' = Append(hist, e)
 Keep == UNCHANGED <<rmesh, nref, nset>>
@@ -86,7 +114,7 @@ Validate(i) == /\ rec[i].st = "none" /\ DoValidate(i) /\ Keep
                /\ Rec([e |-> "validate", id |-> i, t |-> IdTopic(i)])
 Deliver(i, p) == /\ rec[i].st \in {"none", "unknown"} /\ DoDeliver(i, p, IdTopic(i)) /\ Keep
                  /\ Rec([e |-> "deliver", id |-> i, p |-> p, t |-> IdTopic(i)])
-Reject(i, p, r) == /\ (r \in SigReasons \cup IgnoreReasons \/ rec[i].st \in {"none", "unknown"})
+Reject(i, p, r) == /\ (IF r \in SigReasons \cup IgnoreReasons THEN TRUE ELSE rec[i].st \in {"none", "unknown"})
                    /\ DoReject(i, p, IdTopic(i), r) /\ Keep
                    /\ Rec([e |-> "reject", id |-> i, p |-> p, t |-> IdTopic(i), reason |-> r])
 Duplicate(i, p) == /\ DoDuplicate(i, p, IdTopic(i)) /\ Keep
@@ -96,13 +124,13 @@ Penalty(p, n) == /\ p \in tracked /\ DoPenalty(p, n) /\ Keep
 Refresh == /\ nref < MaxRefresh /\ RefreshExact /\ DoRefresh
            /\ nref' = nref + 1 /\ UNCHANGED <<rmesh, nset>>
            /\ Rec([e |-> "refresh"])
-GC == /\ \E i \in Ids : rec[i].st # "none" /\ now > rec[i].expire
+GC == /\ {i \in Ids : rec[i].st # "none" /\ now > rec[i].expire} # {}
       /\ DoGC /\ Keep /\ Rec([e |-> "gc"])
 SetApp(p, v) == /\ v # app[p] /\ DoSetApp(p, v) /\ Keep
                 /\ Rec([e |-> "setapp", p |-> p, v |-> v])
 SetIPs(p, I) == /\ conn[p] /\ I # ips[p] /\ DoSetIPs(p, I) /\ Keep
                 /\ Rec([e |-> "setips", p |-> p, ips |-> SetToSeq(I)])
-SetTopicParams(t, tp) == /\ nset < 1 /\ (Scored(t) => TP(t) # tp) /\ DoSetTopicParams(t, tp)
+SetTopicParams(t, tp) == /\ nset < 1 /\ (IF Scored(t) THEN TP(t) # tp ELSE TRUE) /\ DoSetTopicParams(t, tp)
                          /\ nset' = nset + 1 /\ UNCHANGED <<rmesh, nref>>
                          /\ Rec([e |-> "setparams", t |-> t, tp |-> tp])
 Tick(dt) == /\ now + dt <= MaxNow /\ DoTick(dt) /\ Keep
@@ -110,8 +138,11 @@ Tick(dt) == /\ now + dt <= MaxNow /\ DoTick(dt) /\ Keep
 
 \* one representative per class of reject reasons in exhaustive runs would hide a swapped case:
 \* all eleven are offered, rotating through the signature/ignore classes by position to keep the fan-out down
-Pick(set) == LET sq == SetToSeq(set) IN sq[(Len(hist) % Len(sq)) + 1]
-ReasonChoices == {Pick(SigReasons), Pick(IgnoreReasons), "validation throttled", "validation ignored", "validation failed"}
+Pick(set) == LET sq == SetToSeq(set) IN sq[((Len(hist) + nref + now) % Len(sq)) + 1]
+ReasonChoices == IF Sim THEN {Pick(SigReasons \cup IgnoreReasons), Pick({"validation throttled", "validation ignored", "validation failed"}), "validation failed"}
+                 ELSE {Pick(SigReasons), Pick(IgnoreReasons), "validation throttled", "validation ignored", "validation failed"}
+\* weights for -simulate (TLC picks uniformly among the successors, duplicates included)
+W(n) == IF Sim THEN 1..n ELSE {1}
 
 \* keep every value far inside TLC's 32 bit integers (and exactly representable in float64)
 Safe == \A p \in Peers :
@@ -120,34 +151,47 @@ Safe == \A p \in Peers :
 
 Event ==
     \/ \E p \in Peers, I \in IPSets : Connect(p, I)
-    \/ \E p \in Peers : Disconnect(p)
-    \/ \E p \in Peers, t \in Topics : Graft(p, t)
-    \/ \E p \in Peers, t \in Topics : Prune(p, t)
-    \/ \E i \in Ids : Validate(i)
-    \/ \E i \in Ids, p \in Peers : Deliver(i, p)
+    \/ \E p \in Peers, k \in W(2) : Disconnect(p)
+    \/ \E p \in Peers, t \in Topics, k \in W(2) : Graft(p, t)
+    \/ \E p \in Peers, t \in Topics, k \in W(3) : Prune(p, t)
+    \/ \E i \in Ids, k \in W(3) : Validate(i)
+    \/ \E i \in Ids, p \in Peers, k \in W(2) : Deliver(i, p)
     \/ \E i \in Ids, p \in Peers, r \in ReasonChoices : Reject(i, p, r)
     \/ \E i \in Ids, p \in Peers : Duplicate(i, p)
     \/ \E p \in Peers, n \in {1, 2} : Penalty(p, n)
-    \/ Refresh
+    \/ \E k \in W(5) : Refresh
     \/ \E p \in Peers, v \in AppVals : SetApp(p, v)
-    \/ Tick(1)
-    \/ (Rich /\ GC)
+    \/ \E k \in W(5) : Tick(1)
+    \/ (Rich /\ \E k \in W(2) : GC)
     \/ (Rich /\ \E p \in Peers, I \in IPSets : SetIPs(p, I))
     \/ (Rich /\ \E t \in Topics : \E tp \in Alt(t) : SetTopicParams(t, tp))
     \/ (Rich /\ Tick(2))
 
-Next == Len(hist) < L /\ Event /\ Safe'
+Forced ==
+    LET e == WarmUp[Len(hist) + 1] IN
+    /\ Apply(e) /\ Rec(e)
+    /\ rmesh' = CASE e.e = "graft" -> rmesh \cup {<<e.p, e.t>>}
+                   [] e.e = "prune" -> rmesh \ {<<e.p, e.t>>}
+                   [] e.e = "disconnect" -> {x \in rmesh : x[1] # e.p}
+                   [] OTHER -> rmesh
+    /\ nref' = nref + (IF e.e = "refresh" THEN 1 ELSE 0)
+    /\ UNCHANGED nset
+
+\* the simulator evaluates the invariant Emit on every successor of the state it stands in: a walk ends
+\* with one fixed event so that it is emitted exactly once
+Next == IF Len(hist) < Len(WarmUp) THEN Forced
+        ELSE IF Sim /\ Len(hist) = Len(WarmUp) + L - 1 THEN Tick(1)
+        ELSE Len(hist) < Len(WarmUp) + L /\ Event /\ Safe'
 
 Spec == Init /\ [][Next]_vars
 
 \* exhaustive checking merges histories that lead to the same scorer state
 View == <<now, par, tracked, conn, expire, pen, ips, app, ts, rec, rmesh, nref, nset, Len(hist)>>
 
-Emit == Len(hist) = L => PrintT(<<"SCN", ToJson([ps |-> PS, par |-> P0, peers |-> SetToSeq(Peers), topics |-> SetToSeq(Topics), ev |-> hist])>>)
+Emit == Len(hist) = Len(WarmUp) + L => PrintT(<<"SCN", ToJson([ps |-> PS, warm |-> Warm, par |-> P0, peers |-> SetToSeq(Peers), topics |-> SetToSeq(Topics), ev |-> hist])>>)
 
 -----------------------------------------------------------------------------
 (* model-level properties *)
-Last == hist[Len(hist)]
 
 \* retention: a disconnect forgets a positive score at once and keeps a non-positive one; a retained
 \* peer is neither decayed nor dropped by Refresh until the clock has passed its expiry, and then dropped
@@ -166,7 +210,7 @@ RetentionStep ==
 P_C10_Retention == [][RetentionStep]_vars
 
 \* non-vacuity (these MUST be violated: the interesting situations are reachable)
-NV_CapHit      == ~(\E p \in Peers, t \in Topics \cap DOMAIN par.topics : ts[p][t].fmd = TP(t).c2 * S /\ nref > 0)
+NV_CapHit      == ~(\E p \in Peers, t \in Topics \cap DOMAIN par.topics : ts[p][t].fmd = TP(t).c2 * S)
 NV_Retained    == ~(\E p \in tracked : ~conn[p] /\ Score(p) < 0)
 NV_TopicCap    == ~(\E p \in tracked : par.cap > 0 /\ TopicSum(p) > par.cap * S2)
 NV_Sticky      == ~(\E p \in Peers, t \in Topics : ts[p][t].mfp > 0)
